@@ -387,15 +387,10 @@ def run(ctx):  # noqa: C901, PLR0912, PLR0915
     g = cfg_of(pc)
     app = [n for n, c in g.nodes_calling('append') if '_buffered_notifications' in unparse(c.func)]
     ok = bool(app)
+    from .c06 import _state_confirmed_in_lock
     for n in app:
-        facts = g.facts_at(n)
         ok = ok and bool(g.held_withs(n, '_buffered_notifications_lock')) and \
-            sum(1 for t, p in facts if t == 'self._state == ConsumerMdibState.initializing' and p) >= 1
-        # the re-check happens inside the lock
-        inner = [b for b in g.nodes if b.kind == 'branch' and b.label is True and
-                 unparse(b.test) == 'self._state == ConsumerMdibState.initializing' and
-                 g.held_withs(b, '_buffered_notifications_lock')]
-        ok = ok and any(g.dominates(b, n) for b in inner)
+            _state_confirmed_in_lock(g, n, 'self._state == ConsumerMdibState.initializing')
     ctx.ob('C01.R4', 'buffering re-checks the state under the lock', ok,
            '_pre_check_report_ok appends to the buffer only inside the buffer lock and after re-checking `initializing` '
            'there', fi=pc)
